@@ -86,6 +86,7 @@ class Shadow(object):
         self.degenerate = False       # "jump-off" among athletes with no clearance
         self.jo_pass = False          # a pass recorded inside a jump-off
         self.jo_participants = None
+        self.jo_initial = None
         self.refused = 0
         self.log = []                 # accepted (method, arg)
         self.why_irregular = None
@@ -332,6 +333,7 @@ class Monitor(object):
                     sh.degenerate = True
                     sh.why_irregular = sh.why_irregular or 'jump-off among athletes with no clearance'
                 sh.jo_participants = [b for b in sh.bibs if pl.get(b) == 1 and 'r' not in sh.seq(b)]
+                sh.jo_initial = [b for b in sh.bibs if pl.get(b) == 1]
                 if sh.degenerate:
                     sh.jo_participants = [j.bib for j in comp.jumpers if j._place == 1 and 'r' not in sh.seq(j.bib)]
         if ns == 'jumpoff' and sh.jo_participants and len(sh.heights) > sh.jo_start:
@@ -343,6 +345,10 @@ class Monitor(object):
                 else:
                     sh.jo_participants = [b for b in sh.jo_participants if 'r' not in sh.seq(b)]
         self.invariants(comp, sh, name, arg)
+        if self.final and ns == 'jumpoff' and sh.jo_initial and not sh.degenerate and all('r' in sh.seq(b) for b in sh.jo_initial):
+            # every athlete tied for first has retired: nobody is left to break the tie, it must be declared drawn
+            ctx.count('eval.all-tied-leaders-retired')
+            ctx.violation('draw-not-declared:every-tied-leader-retired-but-state-stays-jumpoff', self.describe(sh, name, arg), 'drawn', ns)
         if self.final and ns in ('finished', 'won', 'drawn'):
             self.judge_final(comp, sh, name, arg)
         if self.replay and not self.busy:
@@ -657,6 +663,9 @@ class Explorer(object):
                     out += [('set_bar_height', last), ('set_bar_height', last - D('0.02'))]
                 if in_jo and sh.jo_start is not None and sh.jo_start > 0:
                     out.append(('set_bar_height', sh.heights[sh.jo_start - 1] - D('0.12')))     # below the tied height
+                    tb = self.tied_best(sh)
+                    if tb is not None and ('set_bar_height', tb) not in out:
+                        out.append(('set_bar_height', tb))                                       # exactly the tied best
         if not legal_only:
             out.append(('add_jumper', BIBS[0]))
             out.append(('add_jumper', 'Z'))
@@ -677,6 +686,12 @@ class Explorer(object):
                 keep.append((m, a))
             out = keep
         return out
+
+    @staticmethod
+    def tied_best(sh):
+        bs = [best_ever(sh.cards, sh.heights[:sh.jo_start], b) for b in (sh.jo_initial or [])]
+        bs = [b for b in bs if b > 0]
+        return max(bs) if bs else None
 
     def apply(self, c, m, a):
         try:
@@ -826,6 +841,72 @@ class Explorer(object):
         self.states += 1
         return c
 
+    def jumpoff_scenario(self, nj, max_jo=3):
+        """A rule-conforming competition built to end in a jump-off: K athletes with identical cards tie for first, the
+        others have the same best with more failures, a lower best or no clearance; then up to max_jo jump-off heights with
+        the bar at, next to, below or above the tied best and random single attempts until it is decided."""
+        rnd = self.rnd
+        c = self.start(nj)
+        sh = c._vf_shadow
+        bibs = list(sh.bibs)
+        rnd.shuffle(bibs)
+        K = rnd.randrange(2, nj + 1)
+        leaders, others = bibs[:K], bibs[K:]
+        nreg = rnd.choice([2, 2, 3])
+        lead_card = [rnd.choice(['o', 'o', 'xo', '']) for _ in range(nreg - 1)] + [rnd.choice(['o', 'o', 'xo'])]
+        cards = {b: list(lead_card) for b in leaders}
+        for b in others:
+            kind = rnd.choice(['same-best-more-failures', 'same-best-more-failures', 'lower-best', 'no-clearance', 'retires'])
+            cd = list(lead_card)
+            if kind == 'same-best-more-failures':
+                i = rnd.randrange(nreg)
+                cd[i] = {'o': rnd.choice(['xo', 'xxo']), 'xo': 'xxo', '': 'xo'}.get(cd[i], cd[i]) if i < nreg - 1 or cd[i] == 'o' else 'xxo'
+                if cd == lead_card:
+                    cd[0] = 'xo' if cd[0] in ('o', '') else 'xxo'
+            elif kind == 'lower-best':
+                cd[-1] = 'xxx'
+            elif kind == 'no-clearance':
+                cd = ['xxx']
+            else:
+                cd[-1] = rnd.choice(['r', 'xr'])
+            cards[b] = cd
+        h = rnd.choice([D('1.80'), D('1.00'), D('2.10')])
+        order = list(sh.bibs)
+        for i in range(nreg):
+            self.apply(c, 'set_bar_height', h)
+            plan = {b: list(cards[b][i]) if i < len(cards[b]) else [] for b in order}
+            while any(plan.values()):
+                b = rnd.choice([b for b, q in plan.items() if q])
+                t = plan[b].pop(0)
+                self.apply(c, {'o': 'cleared', 'x': 'failed', 'r': 'retired'}[t], b)
+            h += rnd.choice([D('0.05'), D('0.03')])
+        self.apply(c, 'set_bar_height', h)
+        for k in range(3):
+            for b in order:
+                if c.state == 'started' and not must_refuse(sh, {j.bib: j.place for j in c.jumpers}, 'failed', b):
+                    self.apply(c, 'failed', b)
+        for rnd_no in range(max_jo):
+            if c.state != 'jumpoff':
+                break
+            tb = self.tied_best(sh) or h
+            bar = rnd.choice([tb, tb, tb + D('0.01'), tb - D('0.02'), c.heights[-1], c.heights[-1] - D('0.02'), c.heights[-1] + D('0.02'), tb + D('0.02')])
+            if bar <= 0 or not self.apply(c, 'set_bar_height', bar):
+                break
+            parts = list(sh.jo_participants or [])
+            rnd.shuffle(parts)
+            for b in parts:
+                if c.state != 'jumpoff':
+                    break
+                m = rnd.choice(['cleared', 'cleared', 'failed', 'failed', 'retired'] if rnd_no else ['cleared', 'cleared', 'cleared', 'failed'])
+                if not must_refuse(sh, {j.bib: j.place for j in c.jumpers}, m, b):
+                    self.apply(c, m, b)
+        if c.state == 'jumpoff':
+            for b in list(sh.jo_participants or []):
+                if not must_refuse(sh, {j.bib: j.place for j in c.jumpers}, 'retired', b):
+                    self.apply(c, 'retired', b)
+        self.states += 1
+        return c
+
     def complete(self, nj, max_reg=4, max_jo=3):
         """A rule-conforming complete competition from per-height attempt strings."""
         rnd = self.rnd
@@ -847,6 +928,9 @@ class Explorer(object):
                         self.apply(c, 'retired', b)
                     break
                 h = c.heights[-1] + rnd.choice([D('0.02'), D('0'), D('-0.02'), D('-0.10'), D('0.05')])
+                tb = self.tied_best(sh)
+                if tb is not None and rnd.random() < 0.3:
+                    h = tb + rnd.choice([D('0'), D('0'), D('0.01'), D('-0.01')])        # at / next to the tied best
                 if h <= 0:
                     h = D('0.50')
             else:
